@@ -219,6 +219,28 @@ def run(ck, prog, tier, load):
               "the text appended for a %s segment is exactly the stored static text / the supplied value (no trimming, joining or re-encoding: a built path must match its own pattern and give the values back): %s" % (arm[0] if arm else "?", short(e, 5)))
     it = [bb for bb, t in bp.calls(r"::rev$|next_back$")]
     ck.ob("C10-d.build-in-order", "build_resource_path", not it, bp, it[0] if it else None, "segments are visited front to back")
+    # a pattern list is matched through a regex set whose i-th member is the i-th pattern: the per-pattern table built by
+    # construct() is indexed with RegexSet::first_match_idx, so the set must keep every expression, in order
+    rsn = prog.find(r"^actix_router::regex_set::RegexSet::new$")
+    ck.anchor("C10-d", len(rsn), 1, "RegexSet::new")
+    for b in rsn:
+        inner = [(bb, t) for bb, t in b.calls(r"RegexSet::new$|Regex::new$") if not cname(t).startswith("actix_router::")]
+        args_in = set(i_ for i_, l in enumerate(b.locals) if l["k"] == "arg")
+        REORDER = r"::(dedup|dedup_by|dedup_by_key|sort|sort_unstable|sort_by|sort_by_key|retain|remove|swap_remove|truncate|reverse|drain|pop|swap|rotate_left|rotate_right|clear)$"
+        touched = [(bb, cname(t)) for bb, t in b.calls(REORDER) if t["args"] and base_local(b, t["args"][0]) in args_in]
+        direct = bool(inner) and all(any(base_local(b, a_) in args_in for a_ in t["args"]) or any(e_calls(b.op_expr(a_, 6), r"IntoIterator>::into_iter$|slice.*::iter$|Iterator::map$") and root_is(b.op_expr(a_, 6), args_in) for a_ in t["args"]) for bb, t in inner)
+        ck.ob("C10-d.regex-set-keeps-every-pattern", "RegexSet::new", direct and not touched, b, (touched or inner or [(None, None)])[0][0],
+              "the expressions are handed to the set as given, none dropped or moved (%s): index i of the set must stay pattern i of the per-pattern table" % (", ".join(n.split("::")[-1] for bb, n in touched) or "no reordering call"))
+    # when the path text is replaced (NormalizePath inside a scope) every stored offset is translated: the consumed prefix too
+    uwr = prog.find(r"^actix_router::path::Path(<T>)?::update_with_reindex$")
+    ck.anchor("C10-d", len(uwr), 1, "Path::update_with_reindex")
+    for b in uwr:
+        re_calls = [bb for bb, t in b.calls(r"FnMut.*::call_mut$|Fn.*::call$")]
+        sk = [bb for bb, i, s_ in b.assigns() if any(isinstance(x, str) and x.endswith("path::Path.skip") for x in s_["p"][1:]) and e_calls(b.rv_expr(s_["rv"], 4), r"FnMut.*::call_mut$|Fn.*::call$")]
+        ok = bool(sk) and b.must_pass([0], b.returns(), sk)[0]
+        ck.ob("C10-d.reindex-covers-skip", "update_with_reindex", ok, b, sk[0] if sk else None, "the offset of the already-matched prefix (Path.skip) is translated with the same mapping as the captured segments, on every path")
+        segw = [bb for bb in re_calls if any(isinstance(p_, str) and p_ == "@Segment" for x in walk(b.op_expr(b.term(bb)["args"][1], 5)) if x[0] == "place" for p_ in x[2])]
+        ck.ob("C10-d.reindex-covers-segments", "update_with_reindex", len(segw) >= 2, b, segw[0] if segw else None, "both ends of every captured segment are translated (%d translation call(s) on Segment fields)" % len(segw))
     # ---- (e) percent-decoder -----------------------------------------------------------------
     dn = prog.one(r"^actix_router::quoter::Quoter::decode_next$")
     sp = [bb for bb, t in dn.calls(r"split_at$")]
